@@ -110,7 +110,7 @@ void addr_history(pbt::Source& src, unsigned A, unsigned ck) {
     check("construction");
     while (src.more() && nops < 200) {
         ++nops;
-        unsigned op = (unsigned)src.weighted({8, 4, 3, 3, 5, 1, 2, 2, 2, 3, 1, 2});
+        unsigned op = (unsigned)src.weighted({10, 4, 3, 3, 8, 1, 2, 2, 2, 3, 1, 2});
         switch (op) {
         case 0: {
             bool ok;
@@ -160,7 +160,7 @@ void addr_history(pbt::Source& src, unsigned A, unsigned ck) {
         }
         case 4: {
             // update(key): present key after raising / lowering its priority, or absent key (= push)
-            Key k = (Key)src.index(U);
+            Key k = (msize && src.chance(170)) ? pick_present() : (Key)src.index(U);
             if (table) {
                 int p = (int)src.range(0, 6);
                 PBT_LOG("prio[" << k << "] " << prio[k] << " -> " << p << "; ");
@@ -268,7 +268,7 @@ void addr_history(pbt::Source& src, unsigned A, unsigned ck) {
 
 PBT_PROPERTY(addressable) {
     unsigned arity = 1 + (unsigned)src.range(0, 7);
-    unsigned ck = (unsigned)src.range(0, 2);
+    unsigned ck = (unsigned)src.weighted({2, 1, 3}); // less, greater, external priority table
     static const char* const AL[] = {"", "arity=1", "arity=2", "arity=3", "arity=4", "arity=5", "arity=6", "arity=7", "arity=8"};
     static const char* const CL[] = {"cmp=less", "cmp=greater", "cmp=table"};
     pbt::label(AL[arity]);
